@@ -102,7 +102,7 @@ def parse_pdu(pdu: bytes, request: service.UDSRequest) -> service.UDSResponse:
         if pdu[0] == UDSIsoServices.NegativeResponse:
             response = service.RawNegativeResponse(pdu)
             # RequestResponseMismatch takes priority over MalformedResponse
-            if len(pdu) >= 3 and pdu[2] != request.service_id:
+            if len(pdu) >= 2 and pdu[1] != request.service_id:
                 raise RequestResponseMismatch(request, response)
         else:
             response = service.RawPositiveResponse(pdu)
